@@ -4,13 +4,13 @@
 use crate::sim::Sim;
 use crate::util::{GenArgs, Trace};
 
-pub fn run_case(tr: &mut Trace, idx: u64, subseed: u64, steps: u32) {
-    run_case_log(tr, idx, subseed, steps, false)
+pub fn run_case(tr: &mut Trace, idx: u64, subseed: u64, steps: u32, wait: bool) {
+    run_case_log(tr, idx, subseed, steps, false, wait)
 }
 
-pub fn run_case_log(tr: &mut Trace, idx: u64, subseed: u64, steps: u32, log: bool) {
-    tr.case(idx, subseed, &format!("job steps={steps}"));
-    let mut sim = Sim::new(subseed);
+pub fn run_case_log(tr: &mut Trace, idx: u64, subseed: u64, steps: u32, log: bool, wait: bool) {
+    tr.case(idx, subseed, &format!("job steps={steps}{}", if wait { " wait=1" } else { "" }));
+    let mut sim = if wait { Sim::new_wait(subseed) } else { Sim::new(subseed) };
     for _ in 0..steps {
         if sim.panicked.is_some() {
             break;
@@ -19,6 +19,9 @@ pub fn run_case_log(tr: &mut Trace, idx: u64, subseed: u64, steps: u32, log: boo
     }
     if sim.panicked.is_none() {
         sim.drain(60);
+    }
+    if sim.panicked.is_none() {
+        sim.wait_reports();
     }
     if log {
         for l in &sim.log {
@@ -43,14 +46,14 @@ pub fn main(mode: &str, args: &[String]) {
             let steps: u32 = a.value("--steps").map(|s| s.parse().unwrap()).unwrap_or(if a.thorough { 120 } else { 60 });
             for k in 0..a.cases {
                 let subseed = a.case_seed(k);
-                run_case(&mut tr, a.shard * 1_000_000 + k, subseed, steps);
+                run_case(&mut tr, a.shard * 1_000_000 + k, subseed, steps, a.has("--wait"));
             }
         }
         "case" => {
             // hqv job case <subseed> <steps>
             let subseed: u64 = args[0].parse().unwrap();
             let steps: u32 = args[1].parse().unwrap();
-            run_case_log(&mut tr, 0, subseed, steps, args.iter().any(|a| a == "--log"));
+            run_case_log(&mut tr, 0, subseed, steps, args.iter().any(|a| a == "--log"), args.iter().any(|a| a == "--wait"));
         }
         "replay" => {
             // trace(s) on stdin: every case is re-executed from its `act` lines
@@ -68,8 +71,11 @@ pub fn main(mode: &str, args: &[String]) {
                 } else if line == "end" {
                     if let Some(h) = header.take() {
                         tr.line(&h);
-                        let mut sim = Sim::new(0);
+                        let mut sim = if h.split(' ').any(|t| t == "wait=1") { Sim::new_wait(0) } else { Sim::new(0) };
                         sim.replay(&acts);
+                        if sim.panicked.is_none() {
+                            sim.wait_reports();
+                        }
                         for l in &sim.job.lines {
                             tr.line(l);
                         }
